@@ -127,6 +127,7 @@ class Scheduler:
         if self.aborting:
             raise SchedAbort()
         t.what = what
+        t.spin = 0
         self.ctrl.release()
         t.go.acquire()
         if self.aborting:
@@ -145,6 +146,7 @@ class Scheduler:
         t.deadline = None if timeout is None else self.now + max(0.0, timeout) + self.wait_eps
         t.timed_out = False
         t.what = what
+        t.spin = 0
         self.ctrl.release()
         t.go.acquire()
         t.pred = None
@@ -200,11 +202,32 @@ class Scheduler:
                     t.timed_out = True
                 self.cur = name
                 t.go.release()
-                self.ctrl.acquire()
+                self._wait_for(t)
         finally:
             self.teardown()
             Scheduler.current_sched = None
         return self
+
+    WATCHDOG = 20.0     # real seconds a thread may run between two scheduling points
+
+    def _wait_for(self, t):
+        """wait until the running thread reaches its next scheduling point.  A thread that does not come back within
+        WATCHDOG real seconds spins without ever waiting (a step normally takes micro- to milliseconds): with virtual
+        time nothing else can happen any more, so this is reported as a livelock - the thread is ended by an
+        asynchronous SchedAbort instead of hanging the check for ever."""
+        if self.ctrl.acquire(timeout=self.WATCHDOG):
+            return
+        self.livelock = True
+        self.spinning = t.name
+        self.aborting = True
+        self.stop_when = lambda: True
+        import ctypes
+        for _ in range(30):
+            if t.real is not None and t.real.ident is not None:
+                ctypes.pythonapi.PyThreadState_SetAsyncExc(ctypes.c_ulong(t.real.ident), ctypes.py_object(SchedAbort))
+            if self.ctrl.acquire(timeout=2.0):
+                return
+        raise RuntimeError(f'thread {t.name} spins and can not be stopped')
 
     def teardown(self):
         self.aborting = True
@@ -222,9 +245,21 @@ class Scheduler:
         return {n: t.what for n, t in self.threads.items() if not t.finished}
 
     # ------------------------------------------------------------ time
+    SPIN_LIMIT = 50000      # clock reads of one thread without a scheduling point in between
+
     def time(self):
-        if self.yield_on_time and self.me() is not None and not self.aborting:
+        me = self.me()
+        if self.yield_on_time and me is not None and not self.aborting:
             self.yield_('time')
+        elif me is not None and not self.aborting:
+            # a thread that keeps reading the clock without ever waiting spins: with virtual time it would never
+            # end (nothing else can run, time stands still) - report it as a livelock instead of hanging the check
+            me.spin = getattr(me, 'spin', 0) + 1
+            if me.spin > self.SPIN_LIMIT:
+                self.spinning = me.name
+                self.livelock = True
+                self.stop_when = lambda: True
+                self.yield_('spin')
         self.now += self.eps
         return self.now
 
